@@ -21,6 +21,7 @@ class Svc(rpyc.Service):
         return (self.n, os.getpid())
 srv = ForkingServer(Svc, hostname="127.0.0.1", port=0, logger=lg, listener_timeout=0.05, auto_register=False)
 port = srv.port
+PATIENCE = float(sys.argv[3])       # how long a client waits for an answer
 import signal
 # the main thread (the only one that may receive SIGCHLD) can be told to hold child-exit signals back for a while: several
 # children exiting meanwhile then arrive as ONE signal, as they do whenever they exit close together
@@ -31,14 +32,14 @@ def client():
     signal.pthread_sigmask(signal.SIG_BLOCK, [signal.SIGCHLD])
     try:
         time.sleep(0.2)
-        c1 = rpyc.connect("127.0.0.1", port, config={"sync_request_timeout": 3})
-        c2 = rpyc.connect("127.0.0.1", port, config={"sync_request_timeout": 3})
+        c1 = rpyc.connect("127.0.0.1", port, config={"sync_request_timeout": PATIENCE})
+        c2 = rpyc.connect("127.0.0.1", port, config={"sync_request_timeout": PATIENCE})
         res["c1"] = [c1.root.inc(), c1.root.inc()]
         res["c2"] = [c2.root.inc()]
         # a misbehaving client
         s = socket.create_connection(("127.0.0.1", port)); s.sendall(b"\xff" * 50); s.close()
         s = socket.create_connection(("127.0.0.1", port)); s.sendall(struct.pack("!LB", 0xfffffff0, 0)); s.close()
-        c3 = rpyc.connect("127.0.0.1", port, config={"sync_request_timeout": 3})
+        c3 = rpyc.connect("127.0.0.1", port, config={"sync_request_timeout": PATIENCE})
         res["c3"] = [c3.root.inc()]
         c3.close()
         time.sleep(0.3)
@@ -111,17 +112,17 @@ time.sleep(3)
 '''
 
 
-def run_probe(mode, repo):
+def run_probe(mode, repo, patience=3):
     d = tempfile.mkdtemp(prefix="verif-fork-")
     script = os.path.join(d, "probe.py")
     outp = os.path.join(d, "out.json")
     open(script, "w").write(PROBE)
     env = dict(os.environ, PYTHONPATH=repo, PYTHONDONTWRITEBYTECODE="1")
     log = open(os.path.join(d, "log.txt"), "w")
-    p = subprocess.Popen(["setsid", "timeout", "-k", "2", "40", "/venv/bin/python", script, mode, outp], stdout=log, stderr=log,
+    p = subprocess.Popen(["setsid", "timeout", "-k", "2", str(40 + 4 * int(patience)), "/venv/bin/python", script, mode, outp, str(patience)], stdout=log, stderr=log,
                          stdin=subprocess.DEVNULL, env=env, cwd=d)
     try:
-        p.wait(60)
+        p.wait(60 + 4 * int(patience))
     except subprocess.TimeoutExpired:
         pass
     subprocess.run(["pkill", "-f", script], stdout=subprocess.DEVNULL, stderr=subprocess.DEVNULL)
@@ -138,6 +139,12 @@ def run_forking(chk, pid, which):
     repo = os.environ.get("VERIF_REPO") or "/repo"
     for mode in ("close", "leave", "burst"):
         res = run_probe(mode, repo)
+        for patience in (10, 25):
+            # an answer that did not come within the client's patience is only held against the server when it does not come
+            # to a more patient client either (a loaded machine forks slowly)
+            if "error" in res and "expired" in res["error"]:
+                chk.drift.append("forking scenario '%s': a client's patience ran out (%s); repeated with %d s" % (mode, res["error"], patience))
+                res = run_probe(mode, repo, patience)
         chk.evaluated()
         chk.distinct(("forking", mode))
         if "error" in res:
